@@ -28,12 +28,15 @@ type Point struct {
 	Cur     bool   // sched: the running thread was still enabled (alt != 0 is a preemption)
 	Enabled []int  // sched: thread ids in canonical order
 	Desc    string // what the chosen thread is about to do
+	Key     uint64 // global state key at this point (0 when no StateHook is installed)
 }
 
-// Scheduler runs one execution under a given choice prefix.
+// Scheduler runs one execution under a given choice prefix. The goroutine that calls
+// Begin becomes thread 0 ("main"); every other thread is created by Go / GoNamed.
 type Scheduler struct {
 	threads []*Thread
 	cur     *Thread
+	main    *Thread
 	prefix  []int
 	Trace   []Point
 	// results
@@ -41,16 +44,16 @@ type Scheduler struct {
 	DeadlockAt string
 	Panics     []string
 	Diverged   string
+	Horizon    bool // step budget exhausted
 	aborting   bool
-	done       chan struct{}
 	steps      int
 	MaxSteps   int
-	Horizon    bool // step budget exhausted
 	clock      int64
 	Log        []string // optional event log (op descriptions)
 	KeepLog    bool
 	wg         sync.WaitGroup
 	Leaked     bool // a thread did not unwind at teardown (harness error)
+	quiet      int  // >0: shim operations are not scheduling points (state inspection)
 }
 
 // Thread is one cooperative thread.
@@ -64,6 +67,8 @@ type Thread struct {
 	finished bool
 	started  bool
 	body     func()
+	hist     uint64 // hash of everything this thread has observed (state at each grant)
+	nsteps   int
 }
 
 // S is the scheduler of the execution in progress (nil = pass-through).
@@ -80,27 +85,55 @@ var (
 	DeterministicPools bool
 )
 
-type abortSignal struct{}
+// StateHook, when set, returns a hash of the canonical shared state. It is evaluated
+// at every scheduling point: folded into the history hash of the thread that is
+// granted (its local state is a function of what it has observed) and, at choice
+// points, combined with all thread histories into Point.Key for state-key pruning.
+var StateHook func() uint64
 
-// Run executes body as thread 0 under the given choice prefix and returns the
-// scheduler with its trace. It must not be called re-entrantly.
-func Run(prefix []int, maxSteps int, body func()) *Scheduler {
-	s := &Scheduler{prefix: prefix, done: make(chan struct{}), MaxSteps: maxSteps}
-	if S != nil {
-		panic("vrt: nested Run")
+func mix(h uint64, xs ...uint64) uint64 {
+	for _, x := range xs {
+		h ^= x + 0x9e3779b97f4a7c15 + (h << 6) + (h >> 2)
+		h *= 0xff51afd7ed558ccd
+		h ^= h >> 33
 	}
-	S = s
-	t := s.newThread("main", body)
+	return h
+}
+
+func strHash(s string) uint64 {
+	var h uint64 = 14695981039346656037
+	for i := 0; i < len(s); i++ {
+		h ^= uint64(s[i])
+		h *= 1099511628211
+	}
+	return h
+}
+
+// Abort is the panic value with which a thread (including main) is unwound when the
+// execution ends abnormally (deadlock, step horizon, panic in another thread) or at
+// teardown. Harness code calling into comet under a scheduler must recover it.
+type Abort struct{}
+
+// Begin attaches a scheduler; the calling goroutine becomes thread 0.
+func Begin(prefix []int, maxSteps int) *Scheduler {
+	if S != nil {
+		panic("vrt: nested Begin")
+	}
+	s := &Scheduler{prefix: prefix, MaxSteps: maxSteps}
+	t := s.newThread("main", nil)
 	t.started = true
 	s.cur = t
-	s.wg.Add(1)
-	go s.threadMain(t)
-	<-s.done
-	// tear down: release every parked thread so that it unwinds (deferred calls run in
-	// pass-through mode because Active() is false while aborting).
+	s.main = t
+	S = s
+	return s
+}
+
+// End tears the execution down: every parked thread is released so that it unwinds
+// (deferred calls run in pass-through mode because Active() is false while aborting).
+func (s *Scheduler) End() {
 	s.aborting = true
 	for _, th := range s.threads {
-		if !th.finished {
+		if th != s.main && th.started && !th.finished {
 			th.finished = true
 			th.wake <- struct{}{}
 		}
@@ -113,12 +146,32 @@ func Run(prefix []int, maxSteps int, body func()) *Scheduler {
 		s.Leaked = true
 	}
 	S = nil
+}
+
+// Run executes body as thread 0 under the given choice prefix on the calling goroutine.
+func Run(prefix []int, maxSteps int, body func()) *Scheduler {
+	s := Begin(prefix, maxSteps)
+	func() {
+		defer func() {
+			if r := recover(); r != nil {
+				if _, ok := r.(Abort); ok {
+					return
+				}
+				s.Panics = append(s.Panics, fmt.Sprintf("thread 0 (main): %v\n%s", r, trimStack(debug.Stack())))
+			}
+		}()
+		body()
+	}()
+	s.End()
 	return s
 }
 
+// Failed reports whether the execution ended abnormally.
+func (s *Scheduler) Failed() bool { return s.Deadlock || s.Horizon || len(s.Panics) > 0 }
+
 func (s *Scheduler) newThread(name string, body func()) *Thread {
 	t := &Thread{ID: len(s.threads), Name: name, wake: make(chan struct{}, 1), body: body}
-	t.enabled = func() bool { return true }
+	t.enabled = alwaysEnabled
 	t.desc = "start"
 	s.threads = append(s.threads, t)
 	return t
@@ -128,7 +181,7 @@ func (s *Scheduler) threadMain(t *Thread) {
 	defer s.wg.Done()
 	defer func() {
 		if r := recover(); r != nil {
-			if _, ok := r.(abortSignal); ok {
+			if _, ok := r.(Abort); ok {
 				return
 			}
 			if s.aborting {
@@ -137,7 +190,7 @@ func (s *Scheduler) threadMain(t *Thread) {
 			s.Panics = append(s.Panics, fmt.Sprintf("thread %d (%s): %v\n%s", t.ID, t.Name, r, trimStack(debug.Stack())))
 			// a panic poisons the instance: end the execution here.
 			t.finished = true
-			s.finish()
+			s.abort(t, true)
 			return
 		}
 	}()
@@ -164,26 +217,26 @@ func trimStack(b []byte) string {
 	return strings.Join(out, "\n")
 }
 
-func (s *Scheduler) finish() {
-	select {
-	case <-s.done:
-	default:
-		close(s.done)
+// abort ends the execution abnormally. Called by the running thread cur.
+func (s *Scheduler) abort(cur *Thread, exiting bool) {
+	s.aborting = true
+	if cur == s.main {
+		panic(Abort{})
 	}
+	// hand control back to main, which unwinds with Abort; this thread parks until End
+	s.cur = s.main
+	s.main.wake <- struct{}{}
+	if exiting {
+		return
+	}
+	<-cur.wake
+	panic(Abort{})
 }
 
 // Go starts f as a new thread (pass-through: a real goroutine).
-func Go(f func()) {
-	s := S
-	if s == nil || s.aborting {
-		go f()
-		return
-	}
-	t := s.newThread("go", f)
-	_ = t
-}
+func Go(f func()) { GoNamed("go", false, f) }
 
-// GoNamed is Go with a name and daemon flag (harness use).
+// GoNamed is Go with a name and daemon flag.
 func GoNamed(name string, daemon bool, f func()) {
 	s := S
 	if s == nil || s.aborting {
@@ -220,7 +273,7 @@ func CurID() int {
 	return S.cur.ID
 }
 
-// Now returns the logical clock (increments at every scheduling point).
+// Now returns a logical time stamp (strictly increasing).
 func Now() int64 {
 	if S == nil {
 		return 0
@@ -233,25 +286,66 @@ func Now() int64 {
 // proceed once enabled() holds. It returns when the scheduler has granted it.
 func Yield(desc string, enabled func() bool) {
 	s := S
-	if s == nil {
-		return
-	}
-	if s.aborting {
+	if s == nil || s.aborting || s.quiet > 0 {
 		return
 	}
 	t := s.cur
 	t.enabled = enabled
 	t.desc = desc
 	s.pickNext(false)
-	if s.aborting {
-		panic(abortSignal{})
-	}
+	t.enabled = alwaysEnabled
 }
 
 var alwaysEnabled = func() bool { return true }
 
 // Step is a scheduling point for an operation that never blocks.
 func Step(desc string) { Yield(desc, alwaysEnabled) }
+
+// Quiet runs f with scheduling points disabled (harness inspection of private state
+// through shim types must not perturb the schedule).
+func Quiet(f func()) {
+	if S == nil {
+		f()
+		return
+	}
+	S.quiet++
+	defer func() { S.quiet-- }()
+	f()
+}
+
+// JoinAll blocks the caller until every other non-daemon thread has finished.
+func JoinAll() {
+	s := S
+	if s == nil || s.aborting {
+		return
+	}
+	me := s.cur
+	Yield("join", func() bool {
+		for _, t := range s.threads {
+			if t != me && !t.Daemon && !t.finished {
+				return false
+			}
+		}
+		return true
+	})
+}
+
+// Quiesce blocks the caller until no other thread is enabled (background work drained).
+func Quiesce() {
+	s := S
+	if s == nil || s.aborting {
+		return
+	}
+	me := s.cur
+	Yield("quiesce", func() bool {
+		for _, t := range s.threads {
+			if t != me && !t.finished && t.enabled() {
+				return false
+			}
+		}
+		return true
+	})
+}
 
 // pickNext chooses the thread that runs next. Called by the running thread either at
 // a scheduling point (exiting=false) or when it has finished (exiting=true).
@@ -260,14 +354,13 @@ func (s *Scheduler) pickNext(exiting bool) {
 	s.steps++
 	if s.MaxSteps > 0 && s.steps > s.MaxSteps {
 		s.Horizon = true
-		s.finish()
-		s.parkForever(cur, exiting)
+		s.abort(cur, exiting)
 		return
 	}
 	// canonical order: running thread first if enabled, then ascending ids
 	var en []*Thread
 	curEnabled := false
-	if !exiting && cur.enabled == nil || (!exiting && cur.enabled()) {
+	if !exiting && cur.enabled() {
 		curEnabled = true
 		en = append(en, cur)
 	}
@@ -275,47 +368,45 @@ func (s *Scheduler) pickNext(exiting bool) {
 		if t == cur || t.finished {
 			continue
 		}
-		if t.enabled == nil || t.enabled() {
+		if t.enabled() {
 			en = append(en, t)
 		}
 	}
 	if len(en) == 0 {
-		// nothing can run: either everything has finished, or only daemons are parked, or deadlock
-		live := false
+		// nothing can run while main has not ended the execution: deadlock
+		s.Deadlock = true
 		for _, t := range s.threads {
-			if !t.finished && !t.Daemon {
-				live = true
+			if !t.finished {
 				s.DeadlockAt += fmt.Sprintf("[t%d %s blocked at %s]", t.ID, t.Name, t.desc)
 			}
 		}
-		if live {
-			s.Deadlock = true
-		}
-		s.finish()
-		s.parkForever(cur, exiting)
+		s.abort(cur, exiting)
 		return
 	}
-	// if only daemons remain enabled and every non-daemon thread has finished, the
-	// execution is over (daemons would idle for ever).
-	allDone := true
-	for _, t := range s.threads {
-		if !t.finished && !t.Daemon {
-			allDone = false
-			break
-		}
-	}
-	if allDone {
-		s.finish()
-		s.parkForever(cur, exiting)
-		return
+	var sh uint64
+	if StateHook != nil {
+		s.quiet++
+		sh = StateHook()
+		s.quiet--
 	}
 	choice := 0
 	if len(en) > 1 {
-		choice = s.choose("sched", len(en), curEnabled, en)
+		var key uint64
+		if StateHook != nil {
+			key = mix(sh, uint64(cur.ID), boolU(exiting))
+			for _, t := range s.threads {
+				key = mix(key, uint64(t.ID), t.hist, boolU(t.finished), boolU(t.started), strHash(t.desc), uint64(t.nsteps))
+			}
+		}
+		choice = s.chooseKey("sched", len(en), curEnabled, en, key)
 	} else if s.KeepLog {
 		s.Log = append(s.Log, fmt.Sprintf("t%d:%s", en[0].ID, en[0].desc))
 	}
 	next := en[choice]
+	next.nsteps++
+	if StateHook != nil {
+		next.hist = mix(next.hist, sh, strHash(next.desc))
+	}
 	if next == cur {
 		return
 	}
@@ -332,21 +423,22 @@ func (s *Scheduler) pickNext(exiting bool) {
 	}
 	<-cur.wake
 	if s.aborting {
-		panic(abortSignal{})
+		panic(Abort{})
 	}
 }
 
-func (s *Scheduler) parkForever(cur *Thread, exiting bool) {
-	if exiting {
-		return
+func boolU(b bool) uint64 {
+	if b {
+		return 1
 	}
-	// the current thread stays parked until teardown
-	s.cur = nil
-	<-cur.wake
-	panic(abortSignal{})
+	return 0
 }
 
 func (s *Scheduler) choose(kind string, n int, curEnabled bool, en []*Thread) int {
+	return s.chooseKey(kind, n, curEnabled, en, 0)
+}
+
+func (s *Scheduler) chooseKey(kind string, n int, curEnabled bool, en []*Thread, key uint64) int {
 	i := len(s.Trace)
 	c := 0
 	if i < len(s.prefix) {
@@ -356,7 +448,7 @@ func (s *Scheduler) choose(kind string, n int, curEnabled bool, en []*Thread) in
 			c = 0
 		}
 	}
-	p := Point{Kind: kind, N: n, Chosen: c, Cur: curEnabled}
+	p := Point{Kind: kind, N: n, Chosen: c, Cur: curEnabled, Key: key}
 	if en != nil {
 		p.Enabled = make([]int, len(en))
 		for j, t := range en {
@@ -378,21 +470,27 @@ func Choose(kind string, n int) int {
 		return 0
 	}
 	s := S
-	if s == nil || s.aborting {
+	if s == nil || s.aborting || s.quiet > 0 {
 		if EnvHook != nil {
 			return EnvHook(kind, n)
 		}
 		return 0
 	}
-	return s.choose(kind, n, false, nil)
+	c := s.choose(kind, n, false, nil)
+	if s.cur != nil {
+		s.cur.hist = mix(s.cur.hist, strHash(kind), uint64(c))
+	}
+	return c
 }
 
 // EnvHook supplies environment decisions in pass-through mode (sequential explorers).
 var EnvHook func(kind string, n int) int
 
-// Preemptions counts the cost of a trace: preemptive context switches and
-// non-default environment choices.
-func Cost(tr []Point, upto int) (preempt, dev int) {
+// Cost counts the cost of the first upto points of a trace: preemptive context
+// switches (switching away from a still-enabled thread), non-default environment
+// choices, and non-default choices at blocking switches (the running thread blocked
+// or finished and a thread other than the lowest-numbered enabled one was chosen).
+func Cost(tr []Point, upto int) (preempt, dev, free int) {
 	for i := 0; i < upto && i < len(tr); i++ {
 		p := tr[i]
 		if p.Chosen == 0 {
@@ -401,6 +499,8 @@ func Cost(tr []Point, upto int) (preempt, dev int) {
 		if p.Kind == "sched" {
 			if p.Cur {
 				preempt++
+			} else {
+				free++
 			}
 		} else {
 			dev++
@@ -514,6 +614,9 @@ func (c *Chan[T]) Len() int {
 }
 func (c *Chan[T]) Cap() int { return c.capn }
 
+// IsClosed reports whether the channel was closed (canonical state).
+func (c *Chan[T]) IsClosed() bool { return c.closed }
+
 // Pending reports buffered items (canonical state).
 func (c *Chan[T]) Pending() int { return len(c.buf) + len(c.sendQ) }
 
@@ -584,9 +687,9 @@ type sendCase[T any] struct {
 
 // SendCase builds `case c <- v:`.
 func SendCase[T any](c *Chan[T], v T) SelCase { return &sendCase[T]{c: c, v: v} }
-func (s *sendCase[T]) ready() bool           { return s.c.canSend() }
-func (s *sendCase[T]) begin()                {}
-func (s *sendCase[T]) end()                  {}
+func (s *sendCase[T]) ready() bool            { return s.c.canSend() }
+func (s *sendCase[T]) begin()                 {}
+func (s *sendCase[T]) end()                   {}
 func (s *sendCase[T]) fire() {
 	if s.c.closed {
 		panic("send on closed channel")
